@@ -44,6 +44,8 @@ Section Fx.
   | x_call_ret env f args body l s s1 sd1 o s' sd :
       lookup f = Some body -> exec n0 (callee_env env args) body s Returned s1 sd1 -> exec n0 env l s1 o s' sd ->
       exec n0 env (ECall f args :: l) s o s' sd
+  | x_ret env r l s o s' sd :
+      exec n0 env l s o s' sd -> exec n0 env (ERet r :: l) s o s' sd
   | x_call_raise env f args body l s s1 sd1 :
       lookup f = Some body -> exec n0 (callee_env env args) body s Raised s1 sd1 ->
       exec n0 env (ECall f args :: l) s Raised s1 [].
@@ -57,7 +59,16 @@ Section Fx.
     unfold table_ok, lookup. intros T H.
     destruct (find (fun p => String.eqb f (fst p)) tbl) as [p|] eqn:F; [|discriminate].
     injection H as <-. apply find_some in F as [I Q]. apply String.eqb_eq in Q. subst f.
-    rewrite forallb_forall in T. apply (T p I).
+    rewrite forallb_forall in T. specialize (T p I). unfold fun_ok in T. apply andb_true_iff in T as [T _]. exact T.
+  Qed.
+  Lemma lookup_rets f body : table_ok tbl = true -> lookup f = Some body -> str_in f fresh_returners = true ->
+    forallb is_nil (rets body) = true.
+  Proof.
+    unfold table_ok, lookup. intros T H F.
+    destruct (find (fun p => String.eqb f (fst p)) tbl) as [p|] eqn:Q; [|discriminate].
+    injection H as <-. apply find_some in Q as [I Q]. apply String.eqb_eq in Q. subst f.
+    rewrite forallb_forall in T. specialize (T p I). unfold fun_ok in T. apply andb_true_iff in T as [_ T].
+    rewrite F in T. exact T.
   Qed.
 
   Definition untouched (may0 : bool) (n0 : nat) (env : nat -> list nat) (s s' : st) : Prop :=
@@ -79,7 +90,9 @@ Section Fx.
       [env s | env l s | env r l s c v o s' sd Hc Hx IH | env l s m o s' sd Hx IH
        | env b l s m s1 sd1 o s' sd Hb IHb Hl IHl | env b l s m s1 sd1 Hb IHb
        | env r l s c o s' sd Hc Hx IH
-       | env f args body l s s1 sd1 o s' sd Hf Hb IHb Hl IHl | env f args body l s s1 sd1 Hf Hb IHb];
+       | env f args body l s s1 sd1 o s' sd Hf Hb IHb Hl IHl
+       | env r l s o s' sd Hx IH
+       | env f args body l s s1 sd1 Hf Hb IHb];
       intros may0 ctor inw OK; unfold body_ok in OK; cbn [forallb] in OK.
     - split; [auto|split; [intros c _ _; reflexivity|constructor]].
     - split; [auto|split; [intros c _ _; reflexivity|constructor]].
@@ -116,6 +129,7 @@ Section Fx.
         apply in_flat_map in I as [i [Hi Hc]].
         destruct (roots_ok_denotes may0 env r0 k O1') as [M I0]; [exists i; auto|].
         destruct Hm as [Hm|Hm]; [congruence|auto].
+    - apply andb_true_iff in OK as [O1 O2]. apply (IH may0 ctor inw O2).
     - apply andb_true_iff in OK as [O1 O2]. cbn [ev_ok] in O1. apply andb_true_iff in O1 as [O1 O1'].
       pose proof (lookup_ok f body T Hf) as OKb.
       destruct (IHb _ _ _ OKb) as [B1 [B2 B3]]. split; [|split; [|constructor]].
@@ -137,6 +151,18 @@ Section Fx.
   Proof.
     intros L X. destruct (frame_body T n0 env body s o s' sd X _ _ _ (lookup_ok f body T L)) as [A [B C]].
     split; [apply A; reflexivity|]. split; [exact B|exact C].
+  Qed.
+
+  (* what a body may hand back: a cell denoted by the roots of one of its return statements, or a fresh one *)
+  Definition may_return (n0 : nat) (env : nat -> list nat) (body : list ev) (c : nat) : Prop :=
+    exists r, In r (rets body) /\ (denotes env r c \/ n0 <= c).
+  (* a function that promises a new object never returns (a view of) an argument, a field of self or a cached object *)
+  Theorem returns_fresh (T : table_ok tbl = true) f body n0 env c :
+    lookup f = Some body -> str_in f fresh_returners = true -> may_return n0 env body c -> n0 <= c.
+  Proof.
+    intros L F [r [I H]].
+    pose proof (lookup_rets f body T L F) as N. rewrite forallb_forall in N. specialize (N r I).
+    destruct r; [|discriminate]. destruct H as [[i [[] _]]|H]. exact H.
   Qed.
 
   (* any sequence of calls *)
@@ -194,3 +220,9 @@ Lemma no_side_effects_history (V E : Type) (s : st V E) (h : list (string * (nat
   forall c, (forall f env n0, In (f, env, n0) h -> c < n0 /\ (str_in f self_mutators = false \/ ~ In c (env 0))) ->
             cells V E s' c = cells V E s c.
 Proof. apply (frame_history V E fx_table fx_table_safe). Qed.
+
+Lemma constructors_return_fresh (f : string) (body : list ev) (n0 : nat) (env : nat -> list nat) (c : nat) :
+  lookup fx_table f = Some body -> str_in f fresh_returners = true -> may_return n0 env body c -> n0 <= c.
+Proof. apply (returns_fresh fx_table fx_table_safe). Qed.
+Example fresh_returners_in_table : forallb (fun f => match lookup fx_table f with Some b => negb (is_nil (rets b)) | None => false end) fresh_returners = true.
+Proof. vm_compute. reflexivity. Qed.
